@@ -50,7 +50,7 @@ OTHER = {"NRoutine": "Routine", "NLoop": "Loop", "NIf": "IfBlock", "NLeaf LAssig
          "NLeaf LReturn": "Return", "NLeaf LCodeBlock": "CodeBlock"}
 TRANS = ["TOMPDo", "TOMPParallelDo", "TOMPTeamsParDo", "TOMPLoop", "TOMPParallelLoop", "TOMPTaskloop",
          "TACCLoop", "TOMPParallel", "TOMPSingle", "TOMPMaster", "TOMPTarget", "TACCParallel", "TACCKernels",
-         "TACCData", "TACCEnterData"]
+         "TACCData", "TACCEnterData", "TACCRoutine"]
 LOOP_TRANS = TRANS[:7]
 REGION_TRANS = TRANS[7:14]
 
@@ -79,7 +79,8 @@ def make_trans(tname):
         "TOMPParallelLoop": T.OMPParallelLoopTrans, "TOMPTaskloop": T.OMPTaskloopTrans,
         "TACCLoop": T.ACCLoopTrans, "TOMPParallel": T.OMPParallelTrans, "TOMPSingle": T.OMPSingleTrans,
         "TOMPMaster": T.OMPMasterTrans, "TOMPTarget": PT.OMPTargetTrans, "TACCParallel": T.ACCParallelTrans,
-        "TACCKernels": PT.ACCKernelsTrans, "TACCData": T.ACCDataTrans, "TACCEnterData": T.ACCEnterDataTrans}
+        "TACCKernels": PT.ACCKernelsTrans, "TACCData": T.ACCDataTrans, "TACCEnterData": T.ACCEnterDataTrans,
+        "TACCRoutine": T.ACCRoutineTrans}
     return table[tname]()
 
 
@@ -477,7 +478,7 @@ def generate(out=None):
     for t in TRANS:
         tr = make_trans(t)
         ent = getattr(type(tr), "excluded_node_types", None)
-        if ent is None and t == "TACCEnterData":
+        if ent is None and t in ("TACCEnterData", "TACCRoutine"):
             ent = ()
         if not isinstance(ent, tuple) or not all(isinstance(c, type) for c in ent):
             raise TranslateError("%s.excluded_node_types is not a tuple of classes: %r" % (type(tr).__name__, ent))
@@ -492,7 +493,7 @@ def generate(out=None):
             raise TranslateError("%s creates an unmodelled directive %s" % (t, created))
         effs[t] = eff
         lines.append("  | %s => Some %s" % (t, inv[created]))
-    lines.append("  | TACCEnterData => None\n  end.\n")
+    lines.append("  | TACCEnterData => None\n  | TACCRoutine => None\n  end.\n")
     lines.append("Inductive ceffect := CKeep | CDrop | CCrash.\n")
     lines.append("Definition collapse_tab (t : trans) : ceffect :=\n  match t with")
     for t in LOOP_TRANS:
